@@ -218,3 +218,79 @@ Proof.
   induction st as [|f r IH]; [constructor|]. unfold unwind_order, pending in *. cbn [flat_map].
   apply Permutation_app; [symmetry; apply Permutation_rev|exact IH].
 Qed.
+
+(* ---- execute_steps *)
+Lemma set_top_nonempty st k v : st <> [] -> set_top st k v <> [].
+Proof. destruct st; [congruence|]. intros _. discriminate. Qed.
+
+Lemma set_top_tl st k v : tl (set_top st k v) = tl st.
+Proof. destruct st; reflexivity. Qed.
+
+Lemma exec_nested_keeps steps : forall st st' seen raised,
+  exec_nested st steps = (st', seen, raised) ->
+  (st <> [] -> st' <> []) /\ tl st' = tl st /\
+  forall k, k <> k_text -> k <> k_table -> cget st' k = cget st k.
+Proof.
+  induction steps as [|s r IH]; intros st st' seen raised; cbn [exec_nested].
+  - intros E; inversion E; subst. auto.
+  - assert (B : forall k, k <> k_text -> k <> k_table ->
+              cget (set_top (set_top st k_text (n_text s)) k_table (n_table s)) k = cget st k).
+    { intros k H1 H2. rewrite !get_other_after_set_top by congruence. reflexivity. }
+    destruct (n_passes s).
+    + destruct (exec_nested (set_top (set_top st k_text (n_text s)) k_table (n_table s)) r)
+        as [[st2 sn] rs] eqn:E2.
+      apply IH in E2 as (N & T & K). intros E; inversion E; subst. repeat split.
+      * intros H. apply N. now apply set_top_nonempty, set_top_nonempty.
+      * now rewrite T, !set_top_tl.
+      * intros k H1 H2. rewrite K by assumption. now apply B.
+    + intros E; inversion E; subst. repeat split.
+      * intros H. now apply set_top_nonempty, set_top_nonempty.
+      * now rewrite !set_top_tl.
+      * exact B.
+Qed.
+
+(* whatever the nested steps are and whether or not one of them fails: afterwards the caller's
+   text and table are what they were, no other attribute changed, outer scopes are untouched *)
+Theorem execute_steps_restores st steps st' seen raised :
+  st <> [] -> execute_steps st steps = (st', seen, raised) ->
+  attr_or_none st' k_text = attr_or_none st k_text /\
+  attr_or_none st' k_table = attr_or_none st k_table /\
+  (forall k, k <> k_text -> k <> k_table -> cget st' k = cget st k) /\
+  tl st' = tl st.
+Proof.
+  intros Hne. unfold execute_steps.
+  destruct (exec_nested st steps) as [[st1 sn] rs] eqn:E1.
+  apply exec_nested_keeps in E1 as (N & T & K). specialize (N Hne).
+  intros E; inversion E; subst. repeat split.
+  - unfold attr_or_none at 1. rewrite get_after_set_top by now apply set_top_nonempty. reflexivity.
+  - unfold attr_or_none at 1. rewrite get_other_after_set_top by discriminate.
+    rewrite get_after_set_top by assumption. reflexivity.
+  - intros k H1 H2. rewrite !get_other_after_set_top by congruence. now apply K.
+  - now rewrite !set_top_tl.
+Qed.
+
+(* every nested step sees its own text and table *)
+Lemma exec_nested_seen steps : forall st st' seen raised,
+  st <> [] -> exec_nested st steps = (st', seen, raised) ->
+  exists n, seen = map (fun s => (n_text s, n_table s)) (firstn n steps) /\
+            (raised = false -> n = length steps) /\
+            (raised = true -> exists s, nth_error steps (n - 1) = Some s /\ n_passes s = false /\ 1 <= n).
+Proof.
+  induction steps as [|s r IH]; intros st st' seen raised Hne; cbn [exec_nested].
+  - intros E; inversion E; subst. exists 0. repeat split; auto. discriminate.
+  - assert (S1 : attr_or_none (set_top (set_top st k_text (n_text s)) k_table (n_table s)) k_text = n_text s).
+    { unfold attr_or_none. rewrite get_other_after_set_top by discriminate.
+      now rewrite get_after_set_top. }
+    assert (S2 : attr_or_none (set_top (set_top st k_text (n_text s)) k_table (n_table s)) k_table = n_table s).
+    { unfold attr_or_none. rewrite get_after_set_top by now apply set_top_nonempty. reflexivity. }
+    rewrite S1, S2. destruct (n_passes s) eqn:P.
+    + destruct (exec_nested (set_top (set_top st k_text (n_text s)) k_table (n_table s)) r)
+        as [[st2 sn] rs] eqn:E2.
+      apply IH in E2 as (n & Hs & Hf & Ht); [|now apply set_top_nonempty, set_top_nonempty].
+      intros E; inversion E; subst. exists (S n). repeat split.
+      * intros H. cbn. now rewrite Hf.
+      * intros H. destruct (Ht H) as (s0 & Hn & Hp & Hle). exists s0. repeat split; auto.
+        destruct n as [|n']; [inversion Hle|]. cbn in *. now rewrite Nat.sub_0_r in *.
+    + intros E; inversion E; subst. exists 1. repeat split; try discriminate.
+      intros _. exists s. auto.
+Qed.
